@@ -304,6 +304,14 @@ static int sweep_md(const Args& A, const char* name, R ref) {
     if (hx != hexs(e)) FAIL("%s(len=%zu, pattern %d).hex() = %s, reference %s", name, n, pat, hx.c_str(), hexs(e).c_str());
     H hs(string((const char*)p, n));
     if (hs.bin() != bin) FAIL("%s(std::string) differs from %s(ptr, size) at len=%zu", name, name, n);
+    // the same message hashed from an address that is not 4-byte aligned (offsets 1..3 into a buffer)
+    for (size_t off = 1; off <= 3; off++) {
+      Bytes shifted(n + off + 1);
+      for (size_t i = 0; i < n; i++) shifted[off + i] = p[i];
+      H hu(shifted.data() + off, n);
+      if (hu.bin() != string((const char*)e.data(), e.size()))
+        FAIL("%s(len=%zu, pattern %d) hashed from buffer offset %zu = %s, reference %s", name, n, pat, off, hu.hex().c_str(), hexs(e).c_str());
+    }
   }
   printf("%s: sweep agrees with the reference\n", name);
   return 0;
